@@ -157,6 +157,7 @@ prop('C05', [
     optab.r_optab_bdd,
     optab.r_vocab,
     handles.r_parser,
+    models.r_to_expr,
 ],
     'the lexer is reconstructed from the source (regex docstrings, PLY '
     'ordering rule) and every spelling of every operator rule and every '
@@ -343,6 +344,7 @@ prop('C15', [
     state.r_pair,
     misc.r_mdd_bits,
     models.r_bdd_to_mdd,
+    models.r_mdd_collect,
 ],
     'MDD.apply interpreted per alias against the connectives and against '
     'BDD.apply; terminal cases of MDD.ite; sign in MDD._top_cofactor and '
@@ -398,6 +400,7 @@ prop('C18', [
     misc.r_visit,
     models.r_function_views,
     models.r_autoref_siblings,
+    models.r_to_nx,
 ],
     'low/high accessors return the successor of their name; succ() keeps '
     '(level, LOW, HIGH); to_nx labels value=False on LOW and carries the '
@@ -453,7 +456,9 @@ MODEL_TEXT = {
            'truth tables.',
     'C05': ' Models: the shared translator bound to the manager of each '
            'call and reset after it; identifiers that begin with a '
-           'keyword probed through the source-level lexer.',
+           'keyword probed through the source-level lexer; `to_expr` of '
+           'every reference of two managers read back by an evaluator '
+           'of the documented syntax.',
     'C06': ' Models: `incref` / `decref`, `find_or_add` (count zero, one '
            'reference per edge); `collect_garbage` on managers that hold '
            'garbage, for every choice of referenced functions, with and '
@@ -499,7 +504,8 @@ MODEL_TEXT = {
            'collection, reordering and the MDD class interpreted (30 '
            'conversions: both integer orders, three initial bit orders, '
            'a zone node referenced from inside and from above its zone) '
-           'against the values on the encoded bits.',
+           'against the values on the encoded bits; `MDD.collect_garbage` for '
+           'every choice of referenced top nodes.',
     'C16': ' Models: `dddmp.load` on the output of the parser for five '
            'small files (levels with gaps, node numbers in no order, '
            'constant roots) against a strict reference manager; '
@@ -510,7 +516,9 @@ MODEL_TEXT = {
            '`descendants`; the views of `autoref.Function` (var, level, '
            'low, high, negated, size, support, count, copy) on every '
            'reference of two managers; `autoref.BDD.succ` and the other '
-           'shared methods against `dd.bdd.BDD`.',
+           'shared methods against `dd.bdd.BDD`; `to_nx` against a model of '
+           'the graph class (nodes, levels, arcs, the function recovered '
+           'by walking the graph).',
     'C19': ' Models: the finalisers of the four Cython `Function` classes '
            'against a recording library call.',
 }
